@@ -58,7 +58,7 @@ Proof. exact (conj (fun H => H) (fun H => H)). Qed.
     statement covers both *)
 Theorem C09b_compose_dynamic s L f var_sub r s' :
   sifting_ok' →
-  Inv s → Counts s L → rctx s = false →
+  Inv s → Counts s L → rctx s = false → max_nodes s = None →
   valid s f → heldn L (absn f) →
   Forall (fun p => is_Some (vars s !! p.1) ∧ valid s p.2 ∧ heldn L (absn p.2)) var_sub →
   compose f var_sub s = (r, s') →
@@ -75,7 +75,7 @@ Print Assumptions C09b_compose_dynamic.
 (** one substitution [f[v := g]], spelled out *)
 Theorem C09b_compose1_dynamic s L f v g r s' :
   sifting_ok' →
-  Inv s → Counts s L → rctx s = false →
+  Inv s → Counts s L → rctx s = false → max_nodes s = None →
   valid s f → heldn L (absn f) →
   is_Some (vars s !! v) → valid s g → heldn L (absn g) →
   compose f [(v, g)] s = (r, s') →
@@ -93,7 +93,7 @@ Print Assumptions C09b_compose1_dynamic.
 (** ** [rename] ([let] with names): every target name declared *)
 Theorem C09b_rename_dynamic s L u dvars r s' :
   sifting_ok' →
-  Inv s → Counts s L → rctx s = false →
+  Inv s → Counts s L → rctx s = false → max_nodes s = None →
   valid s u → heldn L (absn u) →
   (∀ x y, (x, y) ∈ dvars → is_Some (vars s !! y)) →
   rename u dvars s = (r, s') →
@@ -112,7 +112,7 @@ Print Assumptions C09b_rename_dynamic.
     raised in any of them is served by [cube] itself. *)
 Theorem C09b_cube_dynamic s L dvars r s' :
   sifting_ok' →
-  Inv s → Counts s L → rctx s = false →
+  Inv s → Counts s L → rctx s = false → max_nodes s = None →
   Forall (fun p => is_Some (vars s !! p.1)) dvars →
   cube dvars s = (r, s') →
   r = Err EOracle ∨
@@ -131,7 +131,7 @@ Print Assumptions C09b_cube_dynamic.
     starts and need not be held. *)
 Theorem C09b_apply_quant_dynamic s L op fa u v r s' :
   sifting_ok' →
-  Inv s → Counts s L → rctx s = false →
+  Inv s → Counts s L → rctx s = false → max_nodes s = None →
   (fa = true ∧ op ∈ ["\A"; "forall"]) ∨ (fa = false ∧ op ∈ ["\E"; "exists"]) →
   valid s u → valid s v → heldn L (absn v) →
   apply op u (Some v) None s = (r, s') →
@@ -149,7 +149,7 @@ Print Assumptions C09b_apply_quant_dynamic.
 (** ** [let]: constants, references, names *)
 Theorem C09b_let_dynamic s L d u r s' :
   sifting_ok' →
-  Inv s → Counts s L → rctx s = false →
+  Inv s → Counts s L → rctx s = false → max_nodes s = None →
   valid s u → heldn L (absn u) → let_ok L s d →
   let_ d u s = (r, s') →
   r = Err EOracle ∨
